@@ -818,23 +818,26 @@ Theorem contracts_as_found :
 Proof. exact (conj contracts_checks_first_l (conj contracts_classified_l (conj silent_contracts_l silent_functions_translated_l))). Qed.
 Print Assumptions contracts_as_found.
 
-(* fail_classified, exactly one callback, errno inside the callback = errno on return, silent queries - for every
-   translated function, every environment (all argument values, all states), every errno on entry and whatever the
-   calls inside the reporter leave in errno *)
-Theorem contract_refusal_reported_as_documented : forall f fv c e entry clob v r,
-  In (f, fv, c) gen_contracts -> crun e c = CRefused v r ->
-  v = fv /\
-  r_errno (call_trace (CRefused v r) entry clob) = E_INVAL /\
-  List.length (r_log (call_trace (CRefused v r) entry clob)) = callbacks r /\
-  (forall ce, In ce (r_log (call_trace (CRefused v r) entry clob)) -> ce = (USAGE, E_INVAL)) /\
-  (is_silent_function f = true -> r_log (call_trace (CRefused v r) entry clob) = []).
-Proof. exact contract_report_l. Qed.
+(* fail_classified, callbacks, errno inside the callback = errno on return, silent queries - for every translated function,
+   every environment (all argument values, all states), every errno on entry, whatever the calls inside the reporter and the
+   error function itself leave in errno, and each of the THREE generated paths through _vnaerr_verror: with an error
+   function installed (message formatted or vasprintf failing) the error function is called exactly once for a reported
+   refusal; WITHOUT one (NULL given to vnacal_create) it is not called, errno and the failure value are the same.
+   ctrace derives errno and the log from the steps: only an SReport step that fires runs the reporter. *)
+Theorem contract_refusal_reported_as_documented : forall f fv c e p clob entry v r st',
+  In (f, fv, c) gen_contracts -> ctrace e p clob c entry = (CRefused v r, st') ->
+  v = fv /\ r_errno st' = E_INVAL /\ List.length (r_log st') = path_callbacks p r /\
+  (forall ce, In ce (r_log st') -> ce = (USAGE, E_INVAL)) /\
+  (is_silent_function f = true -> r_log st' = []) /\
+  crun e c = CRefused v r.
+Proof. exact contract_trace_l. Qed.
 Print Assumptions contract_refusal_reported_as_documented.
 
-(* no call of the error function while the prologue passes or leaves through an early successful exit *)
-Theorem contract_success_makes_no_report : forall o entry clob,
-  (o = CPass \/ o = CExitOk) -> call_trace o entry clob = mkr entry [].
-Proof. exact contract_success_silent_l. Qed.
+(* no call of the error function and no store to errno while the prologue passes or leaves through an early successful
+   exit: by induction over the steps (every list of steps, not only the generated ones) *)
+Theorem contract_success_makes_no_report : forall c e p clob k st o st',
+  ctrace_k e p clob k c st = (o, st') -> (o = CPass \/ o = CExitOk) -> st' = st.
+Proof. exact ctrace_k_success_silent. Qed.
 Print Assumptions contract_success_makes_no_report.
 
 (* the epilogue of _vnaerr_verror as found: on each of its three paths errno on return is new_errno; the error
@@ -883,9 +886,9 @@ Theorem contract_theorems_satisfiable :
   crun (env_new_alloc HOk 0 2 1 3) gen_contract_vnacal_new_alloc = CRefused VNULL (Via USAGE) /\
   In ("vnacal_get_fmin", VHUGE, gen_contract_vnacal_get_fmin) gen_contracts /\
   crun (env_get HOk [Some (mkcal 0 1 1 0)] 0) gen_contract_vnacal_get_fmin = CRefused VHUGE (Direct E_INVAL) /\
-  crun (env_apply HOk [None; Some (mkcal 8 2 1 3)] (mkapp 1 false 2 false false false false 2 2 false (Some (1, 2)) false false))
+  crun (env_apply HOk [None; Some (mkcal 8 2 1 3)] (mkapp 1 false 2 false false false false false 2 2 false (Some (1, 2)) false false))
        gen_contract_vnacal_apply_common = CPass /\
-  crun (env_apply HOk [None; Some (mkcal 8 2 1 3)] (mkapp 1 false 2 false false false false 2 2 false (Some (2, 2)) false false))
+  crun (env_apply HOk [None; Some (mkcal 8 2 1 3)] (mkapp 1 false 2 false false false false false 2 2 false (Some (2, 2)) false false))
        gen_contract_vnacal_apply_common = CRefused VM1 (Via USAGE).
 Proof. exact contract_report_satisfiable. Qed.
 Print Assumptions contract_theorems_satisfiable.
@@ -914,10 +917,33 @@ Theorem set_frequency_vector_contract : forall s fv rb,
 Proof. exact set_fv_contract_l. Qed.
 Print Assumptions set_frequency_vector_contract.
 
+(* over vectors of doubles with NaN and infinities; code_set_m_error follows the generation of the validation loops the C
+   text has (gen_m_error_f92: NaN / infinite / negative entries are tested, fix DC92; gen_m_error_f94: frequency_vector is
+   looked at only when frequencies > 1, fix DC94); set_m_error_documented below relates it to the manual's rule *)
 Theorem set_m_error_contract : forall s a,
-  mdec_of (crun (env_set_m_error HOk s a) gen_contract_vnacal_new_set_m_error) = set_m_error_decision s a.
+  mdec_of (crun (env_set_m_error_x HOk s a) gen_contract_vnacal_new_set_m_error) =
+  code_set_m_error gen_m_error_f92 gen_m_error_f94 s a.
 Proof. exact set_m_error_contract_l. Qed.
 Print Assumptions set_m_error_contract.
+
+(* with both repairs in the C text the decision as coded IS the rule of vnacal_new(3) written independently
+   (doc_set_m_error: "If frequencies is 1, then frequency_vector is not used"; finite non-negative ascending frequencies;
+   positive / non-negative finite sigma values) - for all vectors of doubles incl. NaN and infinities *)
+Theorem set_m_error_documented : forall s a,
+  code_set_m_error true true s a = mdec_of (doc_set_m_error s a).
+Proof. exact set_m_error_documented_l. Qed.
+Print Assumptions set_m_error_documented.
+
+(* without them the code and the manual differ: a frequency_vector the manual says is not used is refused for its range
+   (DC94), NaN in a sigma vector is accepted (DC92) *)
+Theorem model_variant_set_m_error_before_repairs :
+  let s := mknsum 0 2 2 3 true false (mknew [] 0 0 0 None) in
+  code_set_m_error false false s (mkmerrx 1 (Some [XFin 2000]) (Some [XFin (5 # 1000)]) None true false) = MRefuse /\
+  doc_set_m_error s (mkmerrx 1 (Some [XFin 2000]) (Some [XFin (5 # 1000)]) None true false) = CPass /\
+  code_set_m_error false false s (mkmerrx 1 None (Some [XNaN]) None false false) = MPassD /\
+  doc_set_m_error s (mkmerrx 1 None (Some [XNaN]) None false false) = CRefused VM1 (Via USAGE).
+Proof. exact model_variant_set_m_error_l. Qed.
+Print Assumptions model_variant_set_m_error_before_repairs.
 
 (* vnacal_new_solve: one argument test; NULL is the only handle test (a wrong magic number is not looked at) *)
 Theorem solve_contract : forall s,
@@ -1011,10 +1037,10 @@ Theorem new_settings_satisfiable :
   let s0 := mkn2 (mknsum 0 2 2 3 false false (mknew [] 0 0 0 None)) (Some (1 # 1000000)) (Some (1 # 1000000)) 30 (Some (1 # 1000)) in
   n2_inv s0 /\
   snd (n2_step s0 (N2SetPvalue HOk (Some 2%Q))) = RRefused VM1 (Via USAGE) /\
-  snd (n2_step s0 (N2SetMError HOk (mkmerr 1 None (Some [Some 1%Q]) None false false))) = RRefused VM1 (Via USAGE) /\
+  snd (n2_step s0 (N2SetMError HOk (mkmerrx 1 None (Some [XFin 1%Q]) None false false))) = RRefused VM1 (Via USAGE) /\
   snd (n2_step s0 (N2Solve HNull false)) = RRefused VM1 (Direct E_INVAL) /\
   v_merror (n2_sum (n2_hist s0 [N2SetFv HOk (Some [Some 1%Q; Some 2%Q; Some 3%Q]) false; N2SetPvalue HOk (Some 2%Q);
-                                N2SetMError HOk (mkmerr 1 None (Some [Some 1%Q]) None false false)])) = true.
+                                N2SetMError HOk (mkmerrx 1 None (Some [XFin 1%Q]) None false false)])) = true.
 Proof. exact n2_history_satisfiable. Qed.
 Print Assumptions new_settings_satisfiable.
 
